@@ -23,15 +23,16 @@ UpdJson(S) == LET js == SetToSeq(DOMAIN S)
               IN [k \in DOMAIN js |-> [job |-> js[k],
                      groups |-> [g \in DOMAIN S[js[k]] |-> [bad |-> S[js[k]][g].bad, members |-> SetToSeq(S[js[k]][g].members)]]]]
 
-Rec(a) == [a |-> a, upd |-> <<>>, jobs |-> <<>>]
+Rec(a) == [a |-> a, upd |-> <<>>, jobs |-> <<>>, edited |-> <<>>]
 Step(r, d2, l2) == d' = d2 /\ latest' = l2 /\ hist' = Append(hist, r)
 
 DoSend == \E S \in Pick(Updates) :
             Step([Rec("Send") EXCEPT !.upd = UpdJson(S)], Translate(d, S),
                  [j \in (DOMAIN latest) \cup (DOMAIN S \cap d.cfg) |-> IF j \in DOMAIN S \cap d.cfg THEN S[j] ELSE latest[j]])
 DoConsume == d.q # <<>> /\ Step(Rec("Consume"), Consume(d), latest)
-DoReload == \E J \in Pick(SUBSET Jobs) :
-              Step([Rec("Reload") EXCEPT !.jobs = SetToSeq(J)], Reload(d, J), Restrict(latest, DOMAIN latest \cap J))
+\* a reload may also change settings of jobs it keeps (edited): that does not touch their targets
+DoReload == \E J \in Pick(SUBSET Jobs) : \E E \in Pick(SUBSET J) :
+              Step([Rec("Reload") EXCEPT !.jobs = SetToSeq(J), !.edited = SetToSeq(E)], Reload(d, J), Restrict(latest, DOMAIN latest \cap J))
 
 Init == d = Init0 /\ hist = <<>> /\ latest = <<>>
 Next == Len(hist) < MaxLen /\ (DoSend \/ DoConsume \/ DoReload)
